@@ -124,6 +124,14 @@ fn restart_stream(a: &snel_harness::out::Args) {
                 sess.ctl(serde_json::json!({"ctl": "await_flush"}));
                 let _ = sess.cmd("FLUSH");
                 op.push_str(" | F");
+                // sometimes a compaction round on top: the id column is copied by the merge
+                if r.chance(1, 2) {
+                    sess.ctl(serde_json::json!({"ctl": "await_flush"}));
+                    let _ = sess.compact(0);
+                    std::thread::sleep(std::time::Duration::from_millis(120));
+                    op.push_str(" | C");
+                    s.tally("compaction_rounds");
+                }
             }
             sess.ctl(serde_json::json!({"ctl": "await_flush"}));
             // read back ids by key
